@@ -170,6 +170,32 @@ main (int argc, char **argv)
 	  std::cout << "\n.\n";
 	  continue;
 	}
+      if (cmd == "K")
+	{
+	  // named constants of the vocabulary: every upper-case word that yields exactly one constant
+	  std::cout << "consts";
+	  for (auto const &b: g_voc->get_builtins ())
+	    {
+	      std::string const &w = b.first;
+	      if (w.size () < 3 || ! isupper ((unsigned char) w[0]) || w.find_first_not_of
+		    ("ABCDEFGHIJKLMNOPQRSTUVWXYZ0123456789_abcdefghijklmnopqrstuvwxyz") != std::string::npos)
+		continue;
+	      try
+		{
+		  cerr_capture cap;
+		  compiled c = compile (w, true);
+		  std::vector <stack::uptr> out;
+		  if (run (c, std::make_unique <stack> (), &out) && out.size () == 1 && out[0]->size () == 1)
+		    if (auto cst = value::as <value_cst> (&out[0]->get (0)))
+		      std::cout << " " << hex (w) << "=" << hex (domlabel (cst->get_constant ().dom ())) << "="
+				<< den (cst->get_constant ().value ());
+		}
+	      catch (...)
+		{}
+	    }
+	  std::cout << "\n.\n";
+	  continue;
+	}
       if (cmd == "Q" || cmd == "T")
 	{
 	  std::string flags, hq, hpath;
